@@ -21,6 +21,7 @@ DOC = {
  "C16.R2": "v1 forwarder: on Ok(Some(msg)) every path to an exit passes through the cast; a failed cast returns; Ok(None)/Closed return; Lagged loops",
  "C16.R3": "no task spawn inside the forwarder cycle (v1) or inside dispatch_batch (v2)",
  "C16.R4": "one forwarder task per subscription: the spawn in the subscription constructor is unique and not in a cycle; subscribe prunes with retain(!is_dead) where is_dead = handle.is_finished()",
+ "C16.R7": "v2: every library caller of the fan-out task selects `keep duplicate subscriptions` (the mode flag is the constant true wherever it is not passed through): a second subscription of one actor never replaces the first, so no converter-mapped publication is skipped for it",
  "C16.R6": "v2 Subscriber::send implementations return only the delivery result or the constant true (filtered-out message keeps the subscription)",
  "C16.R5": "v2 dispatch_batch: batch.clear() lies on every path to the exit; a false send removes that subscriber; SetSubscriber is applied after the preceding data segment and before the next; fan-out loop calls dispatch_batch once per received batch",
 }
@@ -241,6 +242,41 @@ def r6(run, db):
                   "send() of %s can return a verdict that is not the delivery result (%s): a subscriber whose converter returns None for one message is unsubscribed and misses every later publication" % (f.id.split(" as ")[0].split("::")[-1], bad), f.where())
 
 
+def r7(run, db):
+    """v2: a second subscription of the same actor is a subscription of its own (as with the default port); the
+    replace-on-equal-id mode of the fan-out task exists for tests only, so every library caller selects `keep duplicates`"""
+    if db.tag != "opv2":
+        run.ok("v2-absent", "the v2 port is compiled only with feature output-port-v2 (analysed under tag opv2)")
+        return
+    inner = [f for f in db.crate_fns("ractor") if "port::output::v2::inner::" in f.id and f.kind in ("fn", "method")]
+    run.anchor("v2 fan-out functions", len(inner), 3)
+    modal = [f for f in inner if any(f.local_ty(i) == "bool" for i in range(1, f.arg_count + 1))]
+    if not modal:
+        run.ok("no-dedup-mode", "no function of the v2 fan-out takes a mode flag: subscriptions are never replaced")
+        return
+    n = 0
+    for f in db.crate_fns("ractor"):
+        if f.raw.get("in_test") or "::tests::" in f.id:
+            continue
+        for c in f.calls():
+            g = db.fns.get(c.resolved or c.callee) or db.fns.get(c.callee)
+            if g is None or g not in modal:
+                continue
+            for i, a in enumerate(c.args):
+                if g.local_ty(i + 1) != "bool":
+                    continue
+                rr = f.origins(a)
+                if all(r["k"] in ("arg", "upvar") for r in rr) and rr:
+                    continue            # passed through from the caller's own mode parameter
+                n += 1
+                vals = f.value_consts(a)
+                run.check(bool(vals) and all(v in ("true", True, "1") for v in vals) and all(r["k"] == "const" for r in rr),
+                          "dup-mode:%s" % f.id.split("::")[-2 if f.kind != "closure" else -3][:50] + "->" + g.id.split("::")[-1],
+                          "%s selects `keep duplicate subscriptions` (constant true)" % f.id,
+                          "%s starts the v2 fan-out with allow_duplicate_subscription = %s: a second subscription of the same actor replaces the first, whose converter then never sees another publication (the v2 port must skip none; the default port keeps both)" % (f.id, vals or "a non-constant"), c.where())
+    run.anchor("library callers choosing the subscription mode", n, 1)
+
+
 Q = ["dflt", "opv2"]
 TH = ["dflt", "opv2", "rc", "astd"]
-RULES = [{"id": "C16.R%d" % i, "fn": f, "quick": Q, "thorough": TH} for i, f in enumerate([r1, r2, r3, r4, r5, r6], 1)]
+RULES = [{"id": "C16.R%d" % i, "fn": f, "quick": Q, "thorough": TH} for i, f in enumerate([r1, r2, r3, r4, r5, r6, r7], 1)]
